@@ -948,7 +948,7 @@ def plan(tier, seed):
     # quick ~40 s per shard, thorough ~9 min.
     return {
         "nshards": 16,
-        "params": {"soft_s": 1200 if quick else 3000, "nprograms": 28 if quick else 400, "script_len": 4},
+        "params": {"soft_s": 1200 if quick else 3000, "nprograms": 28 if quick else 112, "script_len": 4},
         "hard_timeout_s": 2400 if quick else 6000,
     }
 
